@@ -61,6 +61,7 @@ import (
 var (
 	errRequestHostRequired    = errs.NewPublic("missing required Host header in request")
 	errRequestTargetLineBreak = errs.NewPublic("line break in the request target")
+	errRequestTargetHost      = errs.NewPublic("space or control character in the host of the request target")
 	errGetOnly                = errs.NewPublic("non-GET request received")
 	errBodyTooLarge           = errs.New(errs.ErrBodyTooLarge, errs.ErrorTypePublic, "http1/req")
 )
@@ -190,6 +191,15 @@ func write(req *protocol.Request, w network.Writer, usingProxy bool) error {
 		if bytes.IndexByte(ruri, '\n') >= 0 || bytes.IndexByte(ruri, '\r') >= 0 {
 			// the host part comes from the Host header / URI.SetHost unfiltered: never let it break the request line
 			return errRequestTargetLineBreak
+		}
+		if usingProxy || bytes.Equal(req.Method(), bytestr.StrConnect) {
+			// here the host part is written into the request line itself: SP, HTAB, NUL and the other
+			// control bytes would split or corrupt 'method SP target SP version' just as well
+			for _, c := range uri.Host() {
+				if c <= ' ' || c == 0x7f {
+					return errRequestTargetHost
+				}
+			}
 		}
 		req.Header.SetRequestURIBytes(ruri)
 
